@@ -196,7 +196,7 @@ Section Model.
     let t := tt_setWhiteContempt (st_tt s) w in
     let t := if ages (st_opts s) c then tt_nextGeneration t else t in
     let '(t, rt) := if sc_limited c then (t, st_requiredTime s)
-                    else tt_updateTB t (st_requiredTime s) (sc_tbkind c) (sc_maxTime c) genOK maxTAfter in
+                    else tt_updateTB (tbabort_drops_tb V) t (st_requiredTime s) (sc_tbkind c) (sc_maxTime c) genOK maxTAfter in
     mkState t (hist_reScale (st_hist s)) killers_clear (st_clearHistory s) (st_evalCache s)
             (st_matCache s) (st_opts s) (st_randomSeed s) rt.
 
